@@ -114,7 +114,7 @@ def gen_exhaustive(tier, rng):
     return cases
 
 def gen_random(tier, rng):
-    n = 3000 if tier == "quick" else 100000
+    n = 3000 if tier == "quick" else 1000000
     cases = []
     for _ in range(n):
         d = plevel.rand_dom(rng, -12, 12)
